@@ -201,6 +201,9 @@ func checkMain(repo, verifRoot, prop, tier, replayFile string, verbose bool) int
 				}
 			}
 			first := len(e.obligations)
+			if t.Own {
+				e.ownershipComplete(pkgPath)
+			}
 			for _, u := range us {
 				funcsUnderContract[u.Name] = true
 				e.runUnit(u)
